@@ -98,8 +98,11 @@ Definition WG (cfg : config) (s : state) (pb : bool) : Prop :=
 
 (* facts about the serial state that hold in every reachable state: the published copy of the LDM window is the LDM window (with the
    repair of finding C11-ldm-wait-after-worker-error); serial.nextJobID never runs ahead of nextJobID (with the repair of finding
-   C11-serial-turn-skipped-after-error) *)
-Definition SrOk (s : state) : Prop := s_lw (sr s) = s_w (sr s) /\ s_next (sr s) <= next (mt s).
+   C11-serial-turn-skipped-after-error).  The one exception: while ZSTDMT_initCStream_internal stands at ZSTDMT_setNbSeq, nextJobID is already 0
+   and serial.nextJobID of a frame without LDM is not yet (ZSTDMT_serialState_reset resets it after that call since fix 97c340a); no pool
+   thread holds a job at that point (mt_release_only_when_idle) *)
+Definition SrOk (s : state) : Prop :=
+  s_lw (sr s) = s_w (sr s) /\ (s_next (sr s) <= next (mt s) \/ (c_pc (cl s) = CInitSeq /\ ldm (mt s) = false)).
 
 Record GM (cfg : config) (s : state) (pb : bool) : Prop := mkGM {
   gm_b : BGeo cfg (mt s);
@@ -136,10 +139,11 @@ Definition PcGeo (cfg : config) (s : state) : Prop :=
   end.
 
 (* the invariant: while a frame is open and the caller is not waiting for / releasing the jobs of an abandoned frame *)
-(* between ZSTDMT_setBufferSize and ZSTDMT_setNbSeq of ZSTDMT_initCStream_internal (LDM frames): everything is reset but the LDM window *)
+(* between ZSTDMT_setBufferSize and ZSTDMT_setNbSeq of ZSTDMT_initCStream_internal: everything is reset but the LDM window (LDM frames),
+   resp. but serial.nextJobID (frames without LDM: ZSTDMT_serialState_reset calls ZSTDMT_setNbSeq first since fix 97c340a) *)
 Definition Fresh (cfg : config) (s : state) : Prop :=
   done (mt s) = 0 /\ next (mt s) = 0 /\ ready (mt s) = false /\ ended (mt s) = false /\ rpos (mt s) = 0 /\ ihas (mt s) = false /\ ifill (mt s) = 0 /\
-  psize (mt s) = 0 /\ need_cap cfg (mt s) <= rcap (mt s) /\ s_next (sr s) = 0.
+  psize (mt s) = 0 /\ need_cap cfg (mt s) <= rcap (mt s) /\ (ldm (mt s) = true -> s_next (sr s) = 0).
 
 Definition GInv (cfg : config) (s : state) : Prop :=
   PgOk s /\
